@@ -370,7 +370,9 @@ class SSETransport(Transport):
 
             # Check if this is a response to a pending request
             message_id = message_data.get("id")
-            if message_id is not None:
+            # (a message that carries a method is a request of the server's own,
+            # even when it reuses the id of a request of ours that is in flight)
+            if message_id is not None and "method" not in message_data:
                 message_id = str(message_id)
                 async with self._message_lock:
                     if message_id in self._pending_requests:
@@ -391,8 +393,8 @@ class SSETransport(Transport):
         except Exception as e:
             logger.error(f"Error handling message event: {e}")
 
-    async def _route_incoming_message(self, message_data: Dict[str, Any]) -> None:
-        """Route incoming message to the incoming stream."""
+    async def _route_incoming_message(self, message_data: Dict[str, Any]) -> bool:
+        """Route incoming message to the incoming stream; False if it could not be routed."""
         try:
             from chuk_mcp.protocol.messages.json_rpc_message import parse_message
 
@@ -405,10 +407,12 @@ class SSETransport(Transport):
                 logger.debug(
                     f"Routed incoming message: {getattr(message, 'method', None) or 'response'}"
                 )
+            return True
 
         except Exception as e:
             logger.error(f"Error routing incoming message: {e}")
             logger.debug(f"Message data: {message_data}")
+            return False
 
     async def _outgoing_message_handler(self) -> None:
         """Handle outgoing messages from the write stream."""
@@ -477,8 +481,19 @@ class SSETransport(Transport):
                                 if not future.done():
                                     future.cancel()
 
-                        # Route response to incoming stream
-                        await self._route_incoming_message(response_data)
+                        # Route response to incoming stream; a body that is not a
+                        # JSON-RPC message still has to end the request
+                        if not await self._route_incoming_message(response_data):
+                            await self._route_incoming_message(
+                                {
+                                    "jsonrpc": "2.0",
+                                    "id": request_id,
+                                    "error": {
+                                        "code": -32603,
+                                        "message": f"HTTP 200 without a JSON-RPC message: {response.text[:100]}",
+                                    },
+                                }
+                            )
 
                     elif response.status_code == 202:
                         # Async SSE response expected
@@ -519,7 +534,8 @@ class SSETransport(Transport):
                                 and "jsonrpc" in response_data
                             ):
                                 raise ValueError("Response body is not JSON-RPC")
-                            await self._route_incoming_message(response_data)
+                            if not await self._route_incoming_message(response_data):
+                                raise ValueError("Response body is not a JSON-RPC message")
                         except Exception:
                             # Send error response
                             error_response = {
